@@ -10,7 +10,9 @@ let errno_in = ref Z0
    here (the model is a list machine); the check then relies on the sanitizer/determinism oracles alone *)
 let re_big = 1200
 let re_answer p t n =
-  let pat = bytes_of_hex p and text = bytes_of_hex t in
+  (* both are C strings for the implementation: they end at their first 0 byte *)
+  let rec cstr = function [] -> [] | c :: r -> if c = Z0 then [] else c :: cstr r in
+  let pat = cstr (bytes_of_hex p) and text = cstr (bytes_of_hex t) in
   if int_of_z (re_size pat) > re_big then "BIG" else
   match re_query pat text (z_of_int n) with
   | Oob i -> "OOB " ^ string_of_z i
